@@ -566,19 +566,99 @@ def r5_query(ctx, rid):
             return sp.Symbol("B_left")
         if isinstance(n, ast.Call) and call_name(n) == "float" and len(n.args) == 1 and is_query(n.args[0]):
             return tq
+        if isinstance(n, ast.Call) and any(isinstance(a, ast.Constant) and isinstance(a.value, str) for a in n.args):
+            return sp.Symbol("opaque_" + "".join(ch if ch.isalnum() else "_" for ch in ast.unparse(n))[:60])
         return None
     nm = _N(ctx, f, mid.value)
-    try:
-        expr = symx.to_sympy(nm, leaf=leaf)
-    except symx.Unsupported as e:
-        raise AnalysisError(f"{rid}: interpolation return has an unsupported form: {e}")
+
+    def alternatives(e, limit=8):
+        """Case split on conditional sub-expressions: [(conditions [(test, polarity)], expression without IfExp)]."""
+        import copy as _copy
+        alts = [([], e)]
+        for _ in range(limit):
+            progressed = False
+            nxt = []
+            for conds, x in alts:
+                tgt = next((n for n in ast.walk(x) if isinstance(n, ast.IfExp)), None)
+                if tgt is None:
+                    nxt.append((conds, x))
+                    continue
+                progressed = True
+                for pol, arm in ((True, tgt.body), (False, tgt.orelse)):
+                    class _Rp(ast.NodeTransformer):
+                        def visit_IfExp(self, n):
+                            if ast.dump(n) == ast.dump(tgt):
+                                return _copy.deepcopy(arm)
+                            return self.generic_visit(n)
+                    nxt.append((conds + [(tgt.test, pol)], _Rp().visit(_copy.deepcopy(x))))
+            alts = nxt
+            if not progressed:
+                break
+            if len(alts) > 2 ** limit:
+                raise AnalysisError(f"{rid}: too many conditional alternatives in the interpolation return")
+        return alts
+
+    def literals(conds):
+        """Comparisons known to hold: (sympy lhs, op, sympy rhs) with op in <,<=,>,>=."""
+        out = []
+        neg = {ast.Lt: ast.GtE, ast.LtE: ast.Gt, ast.Gt: ast.LtE, ast.GtE: ast.Lt}
+
+        def add(t, pol):
+            if isinstance(t, ast.UnaryOp) and isinstance(t.op, ast.Not):
+                return add(t.operand, not pol)
+            if isinstance(t, ast.BoolOp) and ((isinstance(t.op, ast.And) and pol) or (isinstance(t.op, ast.Or) and not pol)):
+                for v in t.values:
+                    add(v, pol)
+                return
+            if isinstance(t, ast.Compare):
+                items = [t.left] + list(t.comparators)
+                if not pol and len(t.ops) > 1:
+                    return
+                for l, op, r in zip(items, t.ops, items[1:]):
+                    o = type(op) if pol else neg.get(type(op))
+                    if o in neg:
+                        try:
+                            out.append((symx.to_sympy(l, leaf=leaf), o, symx.to_sympy(r, leaf=leaf)))
+                        except symx.Unsupported:
+                            pass
+        for t, pol in conds:
+            add(t, pol)
+        return out
     i = B - 1
-    good = symx.is_linear_interpolant(expr, q=tq, Y=f"{selfn}._y", X=f"{selfn}._t", lo=i, hi=i + 1)
-    facts = {"normalised": str(sp.simplify(expr))[:300], "reference": "Y(B-1) + (t - T(B-1))/(T(B) - T(B-1)) * (Y(B) - Y(B-1)),  B = bisect_right(T, t)"}
-    if good:
+    Tf = sp.Function(f"{selfn}._t")
+    verdicts = []
+    for conds, alt in alternatives(nm):
+        try:
+            expr = symx.to_sympy(alt, leaf=leaf)
+        except symx.Unsupported as e:
+            raise AnalysisError(f"{rid}: interpolation return has an unsupported form: {e}")
+        if symx.is_linear_interpolant(expr, q=tq, Y=f"{selfn}._y", X=f"{selfn}._t", lo=i, hi=i + 1):
+            verdicts.append((True, "bisect bracket", expr))
+            continue
+        # a bracket index that is not bisect-derived (cached / guessed) is right only under the guard T[j] <= t < T[j+1]
+        cands = {a.args[0] for a in expr.atoms(sp.Function) if a.func == sp.Function(f"{selfn}._y") and len(a.args) == 1}
+        j = next((c for c in cands if symx.is_linear_interpolant(expr, q=tq, Y=f"{selfn}._y", X=f"{selfn}._t", lo=c, hi=c + 1)), None)
+        if j is None:
+            verdicts.append((False, "not the linear interpolation between two neighbouring records", expr))
+            continue
+        lits = literals(conds)
+        lower = any((l == tq and o in (ast.GtE, ast.Gt) and sp.simplify(r - Tf(j)) == 0) or
+                    (r == tq and o in (ast.LtE, ast.Lt) and sp.simplify(l - Tf(j)) == 0) for l, o, r in lits)
+        upper = any((l == tq and o in (ast.Lt, ast.LtE) and sp.simplify(r - Tf(j + 1)) == 0) or
+                    (r == tq and o in (ast.Gt, ast.GtE) and sp.simplify(l - Tf(j + 1)) == 0) for l, o, r in lits)
+        if lower and upper:
+            verdicts.append((True, f"bracket {j} guarded by T[j] <= t < T[j+1]", expr))
+        else:
+            verdicts.append((False, f"uses the bracket index `{j}` that is neither bisect_right(times, t) - 1 nor guarded by "
+                                    f"times[j] <= t < times[j+1] (lower bound checked: {lower}, upper bound checked: {upper})", expr))
+    facts = {"alternatives": [{"ok": ok, "why": why, "normalised": str(sp.simplify(x))[:240]} for ok, why, x in verdicts],
+             "reference": "Y(B-1) + (t - T(B-1))/(T(B) - T(B-1)) * (Y(B) - Y(B-1)),  B = bisect_right(T, t)"}
+    bad = [why for ok, why, _ in verdicts if not ok]
+    if not bad:
         ctx.ok(rid, f, mid, "interior query normalises to the linear interpolant between the neighbouring records", facts)
     else:
-        ctx.violation(rid, f, mid, "interior query is not the linear interpolation between records bisect_right(times,t)-1 and its successor", facts)
+        ctx.violation(rid, f, mid, "interior query is not the linear interpolation between records bisect_right(times,t)-1 and its successor: "
+                      + "; ".join(bad), facts)
     # the query time is only converted to float before the lookup
     for s in cfg.stmts():
         if isinstance(s, (ast.Assign, ast.AugAssign)):
